@@ -193,6 +193,23 @@ def c13d(ctx, tu):
                detail="" if ok else "expect_death must hand the requirement a reference to the object's own slot")
 
 
+def c13e(ctx, tu):
+    """capacity: the object has one pointer-sized slot.  For `destroying it while one or more are alive ...
+    makes each of them satisfied` a second requirement must not make the first unreachable: installing a
+    monitor must preserve (chain) the previous one."""
+    for fn in tu.find("trompeloeil::deathwatched::trompeloeil_expect_death"):
+        reads_old = False
+        for b, e in fn.events():
+            if e["e"] == "call" and qe(e) in ("trompeloeil::null_on_move::operator bool", "trompeloeil::null_on_move::operator->",
+                                               "trompeloeil::null_on_move::operator*"):
+                reads_old = True
+        ctx.ob("C13.e", "trompeloeil::deathwatched::trompeloeil_expect_death", reads_old, pattern=fn.pat, unit=tu.name,
+               inst=fn.q, detail="" if reads_old else
+               "a second REQUIRE_DESTRUCTION on the same object overwrites the single monitor slot without chaining the "
+               "first: the first requirement is never notified (reported 'still alive') and its release writes through a "
+               "stale reference")
+
+
 def run(ctx):
     ctx.explanation = (
         "C13.a who-may-write on the monitor slot: only operator=(T*) (called only by trompeloeil_expect_death) and "
@@ -213,6 +230,7 @@ def run(ctx):
         c13b(ctx, tu)
         c13c(ctx, tu)
         c13d(ctx, tu)
+        c13e(ctx, tu)
         units.append({"unit": tu.name, "functions": len(tu.fns)})
     ctx.floor("C13.a slot write sites", n, 2)
     ctx.extra["units"] = units
